@@ -832,6 +832,7 @@ func (p Prop) Run(r *core.Run) *core.Violation {
 		if i > 2 && r.T.Intn(16) == 0 {
 			break
 		}
+		r.Sim.Budget(30_000_000) // per step
 		desc, v := h.step(r.T)
 		if v != nil {
 			v.Msg = fmt.Sprintf("step %d: %s", i+1, v.Msg)
